@@ -874,7 +874,7 @@ def br_update_conc(c):
         r = 'ok'
     except (ValueError, KeyError, TypeError, AttributeError) as e:
         r = type(e).__name__
-        frames = [f.name for f in _tb.extract_tb(e.__traceback__) if f.filename.endswith('portfolio/portfolio.py')]
+        frames = [f.name for f in _tb.extract_tb(e.__traceback__) if f.name in ('transact_asset', 'update_market_value_of_asset', 'subscribe_funds', 'withdraw_funds')]
         site = 'Portfolio.%s' % (frames[0] if frames else '?')
     if r != 'ok':
         c.ob('raises-only-documented-type-ValueError', r == 'ValueError', props=['C15'], raise_site=site)
